@@ -15,7 +15,7 @@ from ..pathterms import PathT
 PROP = "C02"
 IMPORTS = "Py Lang Defs Cond Dsl Check DocSem Inst"
 THEOREMS = ["C02_pointwise", "C02_null_identity_right", "C02_null_identity_left", "C02_operands_preserved",
-            "C02_construct_frame", "C02_construct_refines", "C02_unguarded_refuted"]
+            "C02_construct_frame", "C02_construct_refines", "C02_unguarded_refuted", "C02_pointwise_any_resolver", "C02_errors_any_resolver"]
 FACT_LEMMAS = ["Tie.tie_build", "Tie.tie_call", "C02Proof.eval_item_null", "C02.source_proto_good"]
 DEPENDS = ["Proofs/Tie.v", "Proofs/PyFacts.v", "Proofs/C01Proof.v", "Proofs/C02Proof.v", "Properties/C02.v", "Inst.v",
            "Cond.v", "Dsl.v", "DocSem.v", "Lang.v", "Py.v", "Defs.v", "Gen/TablesGen.v", "Gen/CallablesGen.v", "Check.v",
